@@ -9,6 +9,7 @@ from typing import Any, Dict, List
 
 from .. import gen, hta
 from ..core import Prop
+from .load import clip
 from .common import file_entries, case_from_cfg, draw_prefix, write_and_load
 
 
@@ -54,7 +55,10 @@ class C14(Prop):
                    "counter events are read back from the written *_with_counters file by magic bytes (the tool writes gzip data under a .json name)"]
 
     def gen_case(self, rng, k, tier):
-        case = case_from_cfg(rng, counters_cfg(rng, tier))
+        cfg = counters_cfg(rng, tier)
+        if rng.random() < 0.25:
+            cfg.kdelay = (-2, -1, 0, 0, 1)       # host / device clock skew: an activity may be stamped BEFORE its launch call (the count dips below 0)
+        case = case_from_cfg(rng, cfg)
         n = len(case["ranks"])
         case["req"] = sorted(rng.sample(range(n), rng.randint(1, n)))
         case["prefix"] = draw_prefix(rng)
@@ -72,7 +76,7 @@ class C14(Prop):
                 qser, bwser = {}, {}
                 for r in req:
                     qser[r] = [] if r not in qs else [
-                        {"id": int(i), "ts": hta.ival(t[0]), "pid": hta.ival(t[1]), "tid": hta.ival(t[2]), "key": hta.ival(t[3]), "val": hta.ival(t[4])}
+                        {"id": int(i), "ts": hta.ival(t[0]), "pid": hta.ival(t[1]), "tid": hta.ival(t[2]), "key": hta.ival(t[3]), "val": clip(hta.ival(t[4]))}
                         for i, t in zip(qs[r].index.tolist(), qs[r][["ts", "pid", "tid", "stream", "queue_length"]].itertuples(index=False))]
                     bwser[r] = [] if r not in bws else [
                         {"ts": hta.ival(t[0]), "pid": hta.ival(t[1]), "key": str(t[2]), "val": hta.scaled(t[3], 64)}
@@ -104,7 +108,7 @@ class C14(Prop):
                                 continue
                             (name, val), = e["args"].items()
                             if name == "Queue Length":
-                                ceq.append({"ts": hta.ival(e["ts"]) - base, "pid": hta.ival(e["pid"]), "sid": hta.ival(e["id"]), "val": hta.ival(val), "name": e["name"]})
+                                ceq.append({"ts": hta.ival(e["ts"]) - base, "pid": hta.ival(e["pid"]), "sid": hta.ival(e["id"]), "val": clip(hta.ival(val)), "name": e["name"]})
                             else:
                                 cebw.append({"ts": hta.ival(e["ts"]) - base, "pid": hta.ival(e["pid"]), "sid": -1, "val": hta.scaled(val, 64), "name": e["name"]})
                     obs["ranks"].append({"rank": r, "file": file_entries(case, r), "rows": rows[r], "q": qser[r], "bw": bwser[r], "ceq": ceq, "cebw": cebw, "blocked": blocked[r]})
